@@ -1,6 +1,5 @@
-package v2
+package v1
 
 var zzRegistry = map[string]func(int){
-	"ZZ_C18": ZZ_C18,
 	"ZZ_C14Flag": ZZ_C14Flag,
 }
